@@ -3,7 +3,7 @@
 set -e
 a=/tmp/vw/$1; shift
 for id in "$@"; do
-  (cd $a/harness && find . -name "zz_verif_${id}*.go" -o -name "zz_verif_common*.go" | while read f; do mkdir -p /verif/harness/$(dirname $f); cp $f /verif/harness/$f; echo "harness $f"; done)
+  (cd $a/harness && find . -name "zz_verif_${id}*.go" -o -name "zz_verif_common*.go" | while read f; do case "$f" in *zz_verif_common*) case "$f" in *common_${id}*) ;; *) [ -e /verif/harness/$f ] && continue;; esac;; esac; mkdir -p /verif/harness/$(dirname $f); cp $f /verif/harness/$f; echo "harness $f"; done)
   for d in harness/bounds checks notes; do for f in $a/$d/${id}*; do [ -e "$f" ] && cp $f /verif/$d/ && echo "$d/$(basename $f)"; done; done
   for f in $a/engine/intr_${id}*.go; do [ -e "$f" ] && cp $f /verif/engine/ && echo "engine/$(basename $f)"; done
 done
